@@ -18,6 +18,53 @@ import types
 
 REGISTRY = {}          # id -> Contract
 
+FRAME_LABEL = "frame: no module-level state of exo is written"
+
+
+def module_state():
+    """Every mutable container reachable in one step from an exo module (module
+    globals and attributes of classes defined there)."""
+    import sys, collections, weakref
+    cont = (dict, list, set, collections.ChainMap, weakref.WeakKeyDictionary,
+            weakref.WeakValueDictionary, weakref.WeakSet)
+    out = {}
+    for mn, m in list(sys.modules.items()):
+        if m is None or not (mn == "exo" or mn.startswith("exo.")):
+            continue
+        for k, v in list(vars(m).items()):
+            if k.startswith("__"):
+                continue
+            if isinstance(v, cont):
+                out[f"{mn}:{k}"] = v
+            elif isinstance(v, type) and getattr(v, "__module__", None) == mn:
+                for ck, cv in list(vars(v).items()):
+                    if not ck.startswith("__") and isinstance(cv, cont):
+                        out[f"{mn}:{v.__name__}.{ck}"] = cv
+    return out
+
+
+def _fp(v):
+    try:
+        n = len(v)
+        if n > 512:
+            return (n,)
+        if hasattr(v, "items"):
+            return (n, tuple((id(a), id(b)) for a, b in list(v.items())))
+        if isinstance(v, list):
+            return (n, tuple(id(x) for x in v))
+        return (n, tuple(sorted(id(x) for x in list(v))))
+    except Exception:
+        return None
+
+
+def module_fingerprint():
+    return {k: _fp(v) for k, v in module_state().items()}
+
+
+def module_writes(before):
+    after = module_fingerprint()
+    return sorted(k for k, v in after.items() if k in before and before[k] != v)
+
 
 class Args(types.SimpleNamespace):
     pass
@@ -48,6 +95,7 @@ class Contract:
         self.native_entry = None  # fn(g, fn, a): native call used by the replay
         self.known = {}          # label -> known-finding id (documentation only)
         self.timeout_ms = None
+        self.modifies = set()    # module-level containers the target may write ("module:name")
         if self.id in REGISTRY:
             raise ValueError(f"duplicate contract {self.id}")
         REGISTRY[self.id] = self
@@ -95,6 +143,10 @@ class Contract:
 
     def note(self, s):
         self.notes.append(s)
+        return self
+
+    def modifies_globals(self, *names):
+        self.modifies.update(names)
         return self
 
 
